@@ -154,6 +154,10 @@ pub struct EfgStyle {
     pub comment: bool,
     /// interior outcomes are zero-sum increments only
     pub zero_sum_only: bool,
+    /// every chance action is called "" (where the node's probabilities are pairwise distinct)
+    pub anonymous_chance_actions: bool,
+    /// different chance infosets carry the same display name
+    pub one_chance_name: bool,
     /// first chance infoset number (0 is legal and is an infoset like any other)
     pub chance_base: u64,
 }
@@ -185,6 +189,8 @@ impl EfgStyle {
             slack_milli: if r.coin(0.15) { 1 } else { 0 },
             comment: r.coin(0.3),
             zero_sum_only: false,
+            anonymous_chance_actions: r.coin(0.25),
+            one_chance_name: r.coin(0.25),
             chance_base: *r.pick(&[0u64, 0, 1, 1, 7]),
         }
     }
@@ -201,6 +207,8 @@ impl EfgStyle {
             slack_milli: 0,
             comment: false,
             zero_sum_only: false,
+            anonymous_chance_actions: false,
+            one_chance_name: false,
             chance_base: 1,
         }
     }
@@ -229,6 +237,8 @@ struct EfgW<'a> {
     chance_base: u64,
     /// every infoset name of the model, per player
     all_names: [std::collections::BTreeSet<String>; 2],
+    /// display name chosen for each chance infoset number
+    chance_label: BTreeMap<u64, Option<String>>,
     next_outcome: u64,
     shared: BTreeMap<(i128, i128), u64>,
     used_slack: i64,
@@ -361,11 +371,24 @@ impl EfgW<'_> {
                         order.swap(i, j);
                     }
                 }
-                let list: Vec<String> = order.iter().map(|i| format!("\"{}\" {}", esc(&outs[*i].0), probs[*i])).collect();
+                // chance actions may all carry the same (empty) name — names are labels; only done
+                // where the probabilities are pairwise distinct, so that the node is unambiguous
+                let distinct = (0..probs.len()).all(|a| (0..a).all(|b| probs[a] != probs[b]));
+                let anon_outs = self.st.anonymous_chance_actions && distinct;
+                let list: Vec<String> = order.iter().map(|i| format!("\"{}\" {}", if anon_outs { String::new() } else { esc(&outs[*i].0) }, probs[*i])).collect();
                 let (oc, add) = self.interior();
                 let carry = (carry.0 + add.0, carry.1 + add.1);
-                let iname = match info {
-                    Some(i) if self.r.coin(0.5) => format!(" \"{}\"", esc(i)),
+                // an infoset's name is a label too: different chance infosets may share one
+                // (one name per infoset number: the parser insists that an infoset's name, where it
+                // is written, is always the same)
+                let label = if self.st.one_chance_name {
+                    let coin = self.r.coin(0.7);
+                    self.chance_label.entry(num).or_insert_with(|| if coin { Some("deal".to_string()) } else { info.clone() }).clone()
+                } else {
+                    info.clone()
+                };
+                let iname = match label {
+                    Some(i) if self.r.coin(0.5) => format!(" \"{}\"", esc(&i)),
                     _ => String::new(),
                 };
                 let _ = writeln!(self.out, "c \"\" {num}{iname} {{ {} }} {oc}", list.join(" "));
@@ -464,6 +487,7 @@ pub fn to_efg(model: &MNode, r: &mut Rng, st: &EfgStyle) -> EfgWritten {
         chance_num: BTreeMap::new(),
         next_chance: 0,
         chance_base: st.chance_base,
+        chance_label: BTreeMap::new(),
         all_names: {
             let i = model.infosets();
             [i[0].keys().cloned().collect(), i[1].keys().cloned().collect()]
